@@ -182,6 +182,7 @@ type SymEnv struct {
 	curGuards []SymCond               // see SymAccess.Guards
 	cmpVals   map[ast.Expr][2]Aff     // operands of comparisons evaluated in the current condition
 	condMemo  map[*ast.CallExpr]Aff
+	tabCache  map[string]*Table
 	nCall  int
 	Hook   func(i int, ev Ev, sp *SymPath) // called before each event is executed
 	WrapAware bool     // treat uint64 additions of two untrusted 64-bit values as opaque (they may wrap)
@@ -354,6 +355,28 @@ func (e *SymEnv) Eval(x ast.Expr) Aff {
 		}
 		if a, ok := e.elems[key]; ok {
 			return a
+		}
+		// a constant index into a package-level table that is never written after its initialisation is the entry
+		if idx.IsConst() {
+			if id, ok := ast.Unparen(v.X).(*ast.Ident); ok {
+				if tv, ok := p.Info.Uses[id].(*types.Var); ok && tv.Parent() == p.Pkg.Types.Scope() {
+					if _, isArr := tv.Type().Underlying().(*types.Array); isArr {
+						if e.tabCache == nil {
+							e.tabCache = map[string]*Table{}
+						}
+						t, seen := e.tabCache[tv.Name()]
+						if !seen {
+							t, _ = p.EvalTable(tv.Name())
+							e.tabCache[tv.Name()] = t
+						}
+						if t != nil && idx.K >= 0 && int(idx.K) < t.Len {
+							if tv := t.Vals[idx.K]; tv == nil || tv.Kind() == constant.Int || tv.Kind() == constant.Bool {
+								return affK(t.Int(int(idx.K)))
+							}
+						}
+					}
+				}
+			}
 		}
 		return affAtom(key)
 	case *ast.SliceExpr:
